@@ -428,6 +428,13 @@ L_markers_sq = Lemma('markers_are_literal_inside_quotes', [('u', T.Str)],
                                                 sh.run((SQ, 1), u)[1] == u)), induct=('snoc', 'u'))
 
 
+# a string without a quote character is its own single-quote escape; inert strings contain no quote
+L_sq_identity = Lemma('sq_escape_is_identity_without_quotes', [('u', T.Str)],
+                      lambda u: z3.Implies(z3.Not(has_char("'", u)), sq(u) == u), induct=('snoc', 'u'))
+L_inert_no_quote = Lemma('inert_text_has_no_quote', [('u', T.Str)],
+                         lambda u: z3.Implies(z3.Not(not_inert(u)), z3.Not(has_char("'", u))), induct=('snoc', 'u'))
+
+
 class QuoteInfoStr(Contract):
     """quote_info on a plain string or shell_literal: the top-level C01/C02 obligation for one argument."""
     target = 'bfg9000/shell/posix.py::quote_info'
